@@ -26,6 +26,7 @@ sys.path.insert(0, os.path.join(ROOT, "tools"))
 K_BETA_TOL = "specialized-near-vertical-beta-tolerance"
 K_LINK = "specialized-indirect-link-range-interpolation"
 K_LOG1 = "specialized-log1-cancellation"
+K_CUT = "basic-indirect-endpoint-inside-turning-cut"
 C = O.C_LIGHT
 
 
@@ -548,7 +549,16 @@ def judge(ctx, tracer, dz, icep, g, paths, tr, stats):
                 what = ("solution %d (%s): %s of the ray launched in the reported direction is %r but the tracer reports %r "
                         "(|difference| %.3g > tolerance %.3g); beta=%r: %s" % (
                             i, "direct" if p.direct else "indirect", nm, [R, L, T][j], got[j], err[j], tol[j], beta, tag))
-                if B[j] > tol[j] and (err[j] <= tol[j] + B[j] or math.isinf(B[j])):
+                # numeric tracer, turning solution whose upper endpoint lies inside the dz/10 cut below the turning depth:
+                # the leg to that endpoint is skipped altogether (no grid), the reported distance / length / time are
+                # those of the other leg only -- open finding, guarded by exactly this geometric condition
+                in_cut = (tracer == "BasicRayTracer" and not p.direct
+                          and o["z_turn"] - dz / 10 < max(g["z_from"], g["z_to"]))
+                if in_cut:
+                    stats["endpoint_inside_turning_cut_cases"] = stats.get("endpoint_inside_turning_cut_cases", 0) + 1
+                    out.append((K_CUT, what + " [upper endpoint %.6g lies within dz/10 = %.3g below the turning depth %.6g]" % (
+                        max(g["z_from"], g["z_to"]), dz / 10, o["z_turn"])))
+                elif B[j] > tol[j] and (err[j] <= tol[j] + B[j] or math.isinf(B[j])):
                     stats["log1_cancellation_cases"] = stats.get("log1_cancellation_cases", 0) + 1
                     out.append((K_LOG1, what + " [within the worst-case bound %.3g of the log_term_1 cancellation]" % B[j]))
                 elif tracer == "SpecializedRayTracer" and beta <= 0.005 * (1 + 1e-6) and nm == "arrival":
@@ -613,7 +623,7 @@ def probes_and_e2e(ctx, do_model=True, escalate=1):
                 stats["no_solution"] += 1
             stats["solutions"] += len(paths)
             for key, what in judge(ctx, tracer, dz, icep, g, paths, tr, stats):
-                full = key if key in (K_BETA_TOL, K_LINK, K_LOG1) else "%s:%s:%s:%r:%r:%r" % (key, tracer, icep["cls"], g["z_from"], g["z_to"], g["rho"])
+                full = key if key in (K_BETA_TOL, K_LINK, K_LOG1, K_CUT) else "%s:%s:%s:%r:%r:%r" % (key, tracer, icep["cls"], g["z_from"], g["z_to"], g["rho"])
                 ctx.fail(full, what, rec)
             # ---- end-to-end correspondence: the model evaluated at the reported launch angle
             if do_model and len(e2e_cases) < ctx.n(6000, 24000):
@@ -695,6 +705,11 @@ def probes_and_e2e(ctx, do_model=True, escalate=1):
     return ok
 
 
+def _geom_fixed(fp, tp):
+    return {"kind": "fixed", "z_from": fp[2], "z_to": tp[2], "rho": math.hypot(tp[0] - fp[0], tp[1] - fp[1]),
+            "phi": math.atan2(tp[1] - fp[1], tp[0] - fp[0]), "x0": fp[0], "y0": fp[1]}
+
+
 def fixed_findings(ctx):
     """The documented open findings, probed at fixed inputs so they are evaluated on every run; plus surface-reflected
     solutions in ice whose valid range ends below z = 0 (reflection at the top of the range, beta between n(0) and n(top))."""
@@ -720,8 +735,17 @@ def fixed_findings(ctx):
                      "%s(dz=%s).solutions raises %s for endpoints inside the ice (%s, %r -> %r)" % (tracer, dz, err, ip["cls"], fp, tp), rec)
             continue
         for key, what in judge(ctx, tracer, dz, ip, g, paths, tr, stats):
-            full = key if key in (K_BETA_TOL, K_LINK, K_LOG1) else "%s:%s:%s:%r:%r:%r" % (key, tracer, ip["cls"], g["z_from"], g["z_to"], g["rho"])
+            full = key if key in (K_BETA_TOL, K_LINK, K_LOG1, K_CUT) else "%s:%s:%s:%r:%r:%r" % (key, tracer, ip["cls"], g["z_from"], g["z_to"], g["rho"])
             ctx.fail(full, what, rec)
+    # witness of the open finding K_CUT (numeric tracer, |z1 - z0| <= dz/10): always evaluated
+    fpw, tpw = (162.28438479867862, 469.3380616410893, -711.5212175054803), (155.29041933117006, 475.0820062164846, -711.5873044052282)
+    g = _geom_fixed(fpw, tpw)
+    tr = make_tracer("BasicRayTracer", g, icep, 1.0)
+    paths, err = solve(tr)
+    ctx.case(key=("fixed-cut", fpw, tpw))
+    for key, what in judge(ctx, "BasicRayTracer", 1.0, icep, g, paths or [], tr, stats):
+        full = key if key in (K_BETA_TOL, K_LINK, K_LOG1, K_CUT) else "%s:%s:%s:%r:%r:%r" % (key, "BasicRayTracer", icep["cls"], g["z_from"], g["z_to"], g["rho"])
+        ctx.fail(full, what, {"kind": "geometry", "tracer": "BasicRayTracer", "dz": 1.0, "ice": icep, "g": g})
     ice20 = dict(icep, hi=-20.0, above=None)
     # exactly vertical pairs (launch angles exactly 0 and pi): both solutions exist and are exact
     for tracer, dz, ip, zf, zt in (("SpecializedRayTracer", 1.0, icep, -300.0, -100.0), ("SpecializedRayTracer", 1.0, icep, -100.0, -2000.0),
@@ -737,7 +761,7 @@ def fixed_findings(ctx):
             ctx.fail("tracer-raises:%s:%s:%r:%r:%r" % (tracer, ip["cls"], zf, zt, 0.0), "%s(dz=%s).solutions raises %s for a vertical pair %r -> %r" % (tracer, dz, err, zf, zt), rec)
             continue
         for key, what in judge(ctx, tracer, dz, ip, g, paths, tr, stats):
-            full = key if key in (K_BETA_TOL, K_LINK, K_LOG1) else "%s:%s:%s:%r:%r:%r" % (key, tracer, ip["cls"], zf, zt, 0.0)
+            full = key if key in (K_BETA_TOL, K_LINK, K_LOG1, K_CUT) else "%s:%s:%s:%r:%r:%r" % (key, tracer, ip["cls"], zf, zt, 0.0)
             ctx.fail(full, what, rec)
     for rho in (550.0, 600.0, 650.0, 700.0):
         g = {"kind": "shallow", "z_from": -300.0, "z_to": -150.0, "rho": rho, "phi": 0.0, "x0": 0.0, "y0": 0.0}
@@ -745,7 +769,7 @@ def fixed_findings(ctx):
         paths, err = solve(tr)
         ctx.case(key=("fixed-top20", rho))
         for key, what in judge(ctx, "SpecializedRayTracer", 1.0, ice20, g, paths or [], tr, stats):
-            full = key if key in (K_BETA_TOL, K_LINK, K_LOG1) else "%s:%s:%s:%r:%r:%r" % (key, "SpecializedRayTracer", "AntarcticIce(top -20)", g["z_from"], g["z_to"], g["rho"])
+            full = key if key in (K_BETA_TOL, K_LINK, K_LOG1, K_CUT) else "%s:%s:%s:%r:%r:%r" % (key, "SpecializedRayTracer", "AntarcticIce(top -20)", g["z_from"], g["z_to"], g["rho"])
             ctx.fail(full, what, {"kind": "geometry", "tracer": "SpecializedRayTracer", "dz": 1.0, "ice": ice20, "g": g})
     for g in ({"kind": "vertical", "z_from": -2000.0, "z_to": -100.0, "rho": 2.0, "phi": 0.3, "x0": 0.0, "y0": 0.0},
               {"kind": "vertical", "z_from": -300.0, "z_to": -100.0, "rho": 0.5, "phi": 1.0, "x0": 5.0, "y0": -5.0},
@@ -759,7 +783,7 @@ def fixed_findings(ctx):
         rec = {"kind": "geometry", "tracer": "SpecializedRayTracer", "dz": 1.0, "ice": icep, "g": g}
         ctx.case(key=("fixed", json.dumps(g, sort_keys=True)))
         for key, what in judge(ctx, "SpecializedRayTracer", 1.0, icep, g, paths, tr, stats):
-            full = key if key in (K_BETA_TOL, K_LINK, K_LOG1) else "%s:%s:%s:%r:%r:%r" % (key, "SpecializedRayTracer", icep["cls"], g["z_from"], g["z_to"], g["rho"])
+            full = key if key in (K_BETA_TOL, K_LINK, K_LOG1, K_CUT) else "%s:%s:%s:%r:%r:%r" % (key, "SpecializedRayTracer", icep["cls"], g["z_from"], g["z_to"], g["rho"])
             ctx.fail(full, what, rec)
 
 
@@ -810,7 +834,7 @@ def reuse_history(ctx):
             ctx.fail("endpoints-changed:" + key_tail, "after the caller overwrote its own arrays tracer.from_point/to_point are %r / %r, constructed with %r / %r" % (
                 list(map(float, tr.from_point)), list(map(float, tr.to_point)), list(fp), list(tp)), rec)
         for key, what in judge(ctx, tracer, dz, icep, g, paths, tr, stats):
-            full = key if key in (K_BETA_TOL, K_LINK, K_LOG1) else "reuse:%s:%s" % (key, key_tail)
+            full = key if key in (K_BETA_TOL, K_LINK, K_LOG1, K_CUT) else "reuse:%s:%s" % (key, key_tail)
             ctx.fail(full, "[path quantities read after the caller overwrote its endpoint arrays] " + what, rec)
     ctx.extra["reuse_history"] = {"histories": done, "max_excess": stats.get("max_excess")}
 
@@ -946,7 +970,7 @@ def op_histories(ctx):
                  sample={"tracer": tracer, "geometry": g0, "ops": ops})
 
         def collect(key, what, step, rec=rec):
-            full = key if key in (K_BETA_TOL, K_LINK, K_LOG1) else "history:%s:%s:%r:%r:step%d" % (key, tracer, g0["z_from"], g0["z_to"], step)
+            full = key if key in (K_BETA_TOL, K_LINK, K_LOG1, K_CUT) else "history:%s:%s:%r:%r:step%d" % (key, tracer, g0["z_from"], g0["z_to"], step)
             ctx.fail(full, "%s %s" % (tracer, what), rec)
         run_history(ctx, tracer, dz, icep, g0, ops, stats, collect)
     ctx.extra["op_histories"] = {"histories": done, "ops": kinds}
@@ -1008,7 +1032,7 @@ def replay(ctx, obj):
         fails = []
 
         def collect(key, what, step):
-            if key in (K_BETA_TOL, K_LINK, K_LOG1):
+            if key in (K_BETA_TOL, K_LINK, K_LOG1, K_CUT):
                 print(" (open known finding %s at step %d)" % (key, step))
                 return
             fails.append((step, key, what))
